@@ -10,6 +10,7 @@
 #include <util/check.h>
 #include <util/expected.h>
 #include <util/thread.h>
+#include <util/verif_hooks.h>
 
 #include <algorithm>
 #include <condition_variable>
@@ -81,7 +82,9 @@ private:
             {
                 // Execute the task without the lock
                 REVERSE_LOCK(wait_lock, m_mutex);
+                VERIF_YIELD("threadpool.task_begin");
                 task();
+                VERIF_YIELD("threadpool.task_end");
             }
         }
     }
